@@ -452,6 +452,9 @@ Proof.
     split; [exact Hn'|]. split; [exact Hp|]. split; [|exact HI].
     cbn [n_snaps n_cur with_snaps]. intros o Ho Hdn. rewrite snm_get_filter in Ho.
     destruct (c =? c0); [discriminate|]. now apply Hd.
+  - (* OSnapLate *)
+    destruct (back <=? length (n_log nd))%nat; [|exact HR].
+    split; [exact Hn'|]. split; [exact Hp|]. split; [exact Hd|exact HI].
 Qed.
 
 (* ---------- what a recorded position says about the covered count ---------- *)
